@@ -22,7 +22,10 @@ impl Config {
 }
 pub struct SlowKrillRuntime(pub u8);
 pub struct RepositoryManager(pub u8);
-impl RepositoryManager { pub fn is_initialized(&self) -> Result<bool, Error> { unimplemented!() } }
+impl RepositoryManager { pub fn is_initialized(&self) -> Result<bool, Error> { unimplemented!() } pub fn update_rrdp_if_needed(&self) -> Result<Option<Time>, Error> { unimplemented!() } }
+pub struct Time(pub i64);
+impl From<Time> for Priority { fn from(_t: Time) -> Priority { unimplemented!() } }
+pub fn in_hours(_h: i64) -> Priority { unimplemented!() }
 impl CaManager {
     pub fn cas_repo_sync_single(&self, _c: &CaHandle, _v: u64, _k: &SlowKrillRuntime) -> Result<bool, Error> { unimplemented!() }
     pub fn ca_sync_parent(&self, _c: &CaHandle, _v: u64, _p: &ParentHandle, _a: &Actor, _k: &SlowKrillRuntime) -> Result<bool, Error> { unimplemented!() }
@@ -59,6 +62,14 @@ impl KrillRuntime {
 /// this instance runs a publication server (RepositoryManager::is_initialized, assumed)
 pub uninterp spec fn has_publication_server(m: RepositoryManager) -> bool;
 pub uninterp spec fn repo_of(k: KrillRuntime) -> RepositoryManager;
+#[verifier::external_type_specification] #[verifier::external_body] pub struct ExTime(Time);
+/// nothing is staged any more: the RRDP update was done, or there was nothing to do (ASSUMED meaning of Ok(None);
+/// Ok(Some(t)): changes are staged but the minimum interval since the last update has not passed, t is when it will have)
+pub uninterp spec fn rrdp_caught_up(m: RepositoryManager) -> bool;
+pub assume_specification [RepositoryManager::update_rrdp_if_needed] (m: &RepositoryManager) -> (r: Result<Option<Time>, Error>)
+    ensures r is Ok && r->Ok_0 is None ==> rrdp_caught_up(*m);
+pub assume_specification [<Priority as From<Time>>::from] (t: Time) -> (r: Priority);
+pub assume_specification [in_hours] (h: i64) -> (r: Priority);
 pub assume_specification [RepositoryManager::is_initialized] (m: &RepositoryManager) -> (r: Result<bool, Error>) ensures r is Ok ==> r->Ok_0 == has_publication_server(*m);
 impl TaskQueue {
     #[verifier::external_body] pub fn schedule(&self, task: Task, priority: Priority) -> (r: KrillResult<()>) ensures r is Ok ==> scheduled(*self, task) { unimplemented!() }
@@ -134,6 +145,9 @@ def build():
         ('after_success_the_refresh_recurs', '''r is Ok && r->Ok_0 is FollowUp ==> parent_synced(ca, ca_version, parent)
             && r->Ok_0->FollowUp_0 == (Task::SyncParent { ca_handle: ca, ca_version, parent })'''),
         ]))
+    U.free(U.fn(SCH, None, 'update_rrdp_if_needed', eta=('FatalError',), ensures=[
+        ('done_only_when_nothing_is_left_staged', 'r is Ok && (r->Ok_0 is Done ==> rrdp_caught_up(repo_of(*krill)))'),
+        ('otherwise_the_task_is_kept', 'r is Ok && (r->Ok_0 is Done || r->Ok_0 is Reschedule)')]))
     follow('renew_objects_if_needed', 'RenewObjectsIfNeeded')
     follow('republish_if_needed', 'RepublishIfNeeded')
     follow('renew_testbed_ta', 'RenewTestbedTa')
